@@ -335,7 +335,7 @@ def main(tier, seed):
                        'the relax-ng schema docs/gir-1.2.rnc is not consulted: the contract checked is the compiler\'s own reader',
                        'compared per callable: presence, parameter names and order, direction, caller-allocates, nullable, optional, skip, '
                        'transfer, scope, closure and destroy; type structure is C06\'s subject']
-    ck.prove(['gen_c15.py', 'gen_c02.py'], models=['Model/C15.vo'])
+    ck.prove(['gen_c15.py', 'gen_c02.py'], models=['Model/C15.vo', 'Model/C15T.vo'])
     ok, out = c_build()
     exe = val = None
     if ok:
@@ -353,6 +353,7 @@ def main(tier, seed):
     compiler = os.path.join(CBUILD, 'g-ir-compiler')
     items = []
     cases = []
+    arr_items, arr_cases = [], []
     try:
         # include directory: the stub GIRs (the GObject stub completed with the four names the shipped Regress GIR refers to),
         # the hand-written gir/cairo-1.0.gir.in, and the shipped expected GIRs under their namespace names
@@ -451,6 +452,14 @@ def main(tier, seed):
                 # C arrays: zero-termination, length index and fixed size as a GIR reader takes them, against the typelib's type
                 for what_, el_, tl_ in [('return value', rv, t['ret'])] + [('parameter ' + p_.get('name'), p_, a) for p_, a in zip(params, t['args'])]:
                     arr = el_.find(S.CORE + 'array') if el_ is not None else None
+                    ma = re.match(r'array\[(\d),zero=(\d),len=(-?\d+),fixed=(-?\d+),', tl_.get('type', ''))
+                    if arr is not None and ma:
+                        # the attributes as written, for Model.C15T.c_read_array (the compiler's reader of <array>)
+                        k_, z_, l_, f_ = (int(x) for x in ma.groups())
+                        arr_items.append('(%d, %s, {| ca_kind := %d; ca_zero := %s; ca_len := %s; ca_size := %s |})' % (
+                            len(arr_cases), clist(['(%s, %s)' % (cstr(kk.replace(S.CNS, 'c:')), cstr(vv)) for kk, vv in arr.attrib.items()]),
+                            k_, cbool(z_ == 1), copt(None if l_ < 0 else l_, lambda n: '%d' % n), copt(None if f_ < 0 else f_, lambda n: '%d' % n)))
+                        arr_cases.append(dict(world=what, callable=path, value=what_, array=dict(arr.attrib), typelib=tl_.get('type')))
                     m = re.match(r'array\[0,zero=(\d),len=(-?\d+),fixed=(-?\d+),', tl_.get('type', ''))
                     if arr is not None and arr.get('name') is None and m:
                         zt = arr.get('zero-terminated')
@@ -474,6 +483,21 @@ def main(tier, seed):
                 cases.append((what, path, xml))
     finally:
         shutil.rmtree(tmp, ignore_errors=True)
+    if ck.models_ok and arr_items:
+        text = '\n'.join(['From Coq Require Import List NArith Bool.', 'From GIV.Lib Require Import Regex Str.',
+                          'From GIV.Model Require Import C07T C15T.', 'Import ListNotations.', 'Local Open Scope N_scope.',
+                          'Definition cases : list (N * list (str * str) * carr) := [%s].' % ';\n'.join(arr_items),
+                          "Definition bad := Eval vm_compute in map (fun c => fst (fst c)) (filter (fun c => let '(_, a, t) := c in",
+                          '  negb (carr_eqb (c_read_array a) t)) cases).', 'Print bad.'])
+        rc, out = coq_eval('C15T_arrays', text)
+        if rc != 0:
+            ck.tie_broken('correspondence', 'array case file does not evaluate:\n' + out[-2000:])
+        else:
+            badarr = parse_nlist(parse_defs(out)['bad'])
+            if badarr:
+                ck.tie_broken('correspondence', 'the typelib describes %d arrays otherwise than Model.C15T.c_read_array takes the <array> '
+                              'attributes of the GIR' % len(badarr), arr_cases[badarr[0]])
+        ck.extra['arrays_compared_with_compiler_reader_model'] = len(arr_items)
     if ck.models_ok and items:
         bad = []
         per = 300
